@@ -290,6 +290,8 @@ def obs_events(chk):
 def run(chk):
     core.run_jobs(chk, corr_jobs(chk) + [corrmtx_job(chk)])
     obs_events(chk)
+    from .. import session
+    session.run_for(chk, 'C09')      # Session.tla: results do not depend on earlier calls
 
 
 def replay_case(chk, sig, case):
